@@ -22,6 +22,9 @@ type c05Job struct {
 	Layout   Layout   `json:"layout"`
 	Procs    int      `json:"gomaxprocs"`
 	ValClass string   `json:"valClass,omitempty"`
+	// SortCols: columns for which the index keeps a sort index (set before ingest): sorts on them are served from the
+	// per-segment sort index files of rotated segments
+	SortCols []string `json:"sortCols,omitempty"`
 }
 
 func (j *c05Job) events() []string {
@@ -60,6 +63,11 @@ var c05Sorts = []c05Sort{
 	{"sort -b, a", []sortKey{{"b", true, "auto"}, {"a", false, "auto"}}, 0},
 	{"sort -a | head 2", []sortKey{{"a", true, "auto"}}, 2},
 	{"sort a | head 3", []sortKey{{"a", false, "auto"}}, 3},
+	// limits inside the sort command; with two keys the cut may fall inside a group of equal first keys
+	{"sort 2 b, -a", []sortKey{{"b", false, "auto"}, {"a", true, "auto"}}, 2},
+	{"sort 3 b, a", []sortKey{{"b", false, "auto"}, {"a", false, "auto"}}, 3},
+	{"sort 3 -b, a", []sortKey{{"b", true, "auto"}, {"a", false, "auto"}}, 3},
+	{"sort 1 a", []sortKey{{"a", false, "auto"}}, 1},
 }
 
 // cmpKey compares two model values under one key. ok=false: the pair's relative order is not fixed
@@ -134,9 +142,19 @@ func c05Run(w *kernel.Worker, j *c05Job, rep *kernel.Report) (*Fail, error) {
 		return die(err)
 	}
 	evs := j.events()
-	idx, err := LoadDataset(w, "c05x", evs, j.Layout, rep)
+	idx, err := LoadDatasetWith(w, "c05x", evs, j.Layout, rep, func(idx string) error {
+		if len(j.SortCols) == 0 {
+			return nil
+		}
+		return w.Call("sortcols", map[string]interface{}{"index": idx, "columns": j.SortCols}, nil)
+	})
 	if err != nil {
 		return die(err)
+	}
+	if len(j.SortCols) > 0 {
+		if err := w.Call("waitsortindex", nil, nil); err != nil {
+			return die(err)
+		}
 	}
 	defer func() { _ = delIndex(w, 0, idx) }()
 	model := map[string]*MEvent{}
@@ -155,7 +173,11 @@ func c05Run(w *kernel.Worker, j *c05Job, rep *kernel.Report) (*Fail, error) {
 	}
 	fs := &Fails{}
 	ctxOf := func(q Q) string {
-		return fmt.Sprintf("events=%v layout=%v procs=%d query=%q size=%d from=%d", evs, j.Layout.Bounds, j.Procs, q.Text, q.Size, q.From)
+		sc := ""
+		if len(j.SortCols) > 0 {
+			sc = fmt.Sprintf(" sort-index-on=%v", j.SortCols)
+		}
+		return fmt.Sprintf("events=%v layout=%v procs=%d%s query=%q size=%d from=%d", evs, j.Layout.Bounds, j.Procs, sc, q.Text, q.Size, q.From)
 	}
 	ids := func(r *QRes) []string {
 		var out []string
@@ -429,7 +451,8 @@ func C05() int {
 	rep := kernel.NewReport("C05", "model_checking")
 	rep.Rule = "time part: all 3^4 assignments of timestamps {T0,T0+1,T0+2} to 4 events (ties, out-of-order arrival) × layouts × GOMAXPROCS {1,2}; " +
 		"queries * with size 1,2,3,10, head 1..3, and paging with page sizes 1,2,3 over the whole result. sort part: value sets (ints, floats closer " +
-		"than 1e-4, strings, sparse, numbers+text, ties) × layouts × 9 sort specifications (auto/num/str, asc/desc, two keys, sort|head) + paging under sort. " +
+		"than 1e-4, strings, sparse, numbers+text, ties) × layouts × 13 sort specifications (auto/num/str, asc/desc, two keys, sort|head, limits inside sort with one and two keys) " +
+		"× sort index configured for the index {none, [b], [a b]} (rotated segments then carry sort index files and sorts on those columns are served from them) + paging under sort. " +
 		"Oracle: ordermodel on every pair of results whose relative order the requested keys determine. paging processors: head(from+size) → scroller(from) over tables of ≤ n rows × " +
 		"every composition into batches × every (from, size): page == rows[from:from+size]. non-trivial = time case with ties or " +
 		"out-of-order arrival (overlapping block/segment ranges); every sort case"
@@ -464,13 +487,15 @@ func C05() int {
 				for _, l := range lays5 {
 					for _, p := range []int{1, 2} {
 						emit(c05Job{Kind: "sort", Vals: vs.Vals, Bs: vs.Bs, Layout: l, Procs: p, ValClass: vs.Class})
+						emit(c05Job{Kind: "sort", Vals: vs.Vals, Bs: vs.Bs, Layout: l, Procs: p, ValClass: vs.Class, SortCols: []string{"b"}})
+						emit(c05Job{Kind: "sort", Vals: vs.Vals, Bs: vs.Bs, Layout: l, Procs: p, ValClass: vs.Class, SortCols: []string{"a", "b"}})
 					}
 				}
 			}
 		},
 		Run: c05Run,
 		Key: func(j *c05Job) string {
-			return fmt.Sprintf("%s|%v|%v|%v|%d", j.Kind, j.TS, j.Vals, j.Layout.Bounds, j.Procs)
+			return fmt.Sprintf("%s|%v|%v|%v|%d|%v", j.Kind, j.TS, j.Vals, j.Layout.Bounds, j.Procs, j.SortCols)
 		},
 		Nontrivial: func(j *c05Job) bool { return false },
 	}
